@@ -264,6 +264,14 @@ class Own:
                     base = self.tag(recv, depth + 1)
                     if is_const(kw.get("deep"), True):
                         return ("F",)
+                    upd = kw.get("update")
+                    upd = upd[4] if op(upd) == "new" and len(upd) > 4 else upd
+                    if op(upd) == "dict":
+                        # a shallow copy whose two list fields are replaced by lists of their own shares nothing
+                        # mutable with the original (the other fields of a Record are strings)
+                        fresh = {k[1] for k, v in upd[1] if k is not None and is_const(k) and _fresh_list(v)}
+                        if set(LISTS) <= fresh:
+                            return ("F",)
                     if base is not None and base[0] in ("B", "S"):
                         return ("S", base[1])
                     return ("F",) if base is not None and base[0] == "F" else None
@@ -317,6 +325,23 @@ class Own:
 
 _THROUGH: dict = {}
 _STATE: dict = {}
+
+
+def _fresh_list(v) -> bool:
+    """An expression that builds a new list (whatever it is built from)."""
+    if op(v) == "new" and v[1] == "list":
+        return True
+    if op(v) in ("list", "comp", "concat"):
+        return op(v) != "comp" or v[1] == "list"
+    if op(v) == "call" and v[1] in (("builtin", "list"), ("builtin", "sorted")) and len(v[2]) == 1:
+        return True
+    if op(v) == "call" and op(v[1]) == "attr" and v[1][2] == "copy" and not v[2]:
+        return True
+    if op(v) == "slice" and all(x is None or is_const(x, None) for x in v[2:]):
+        return True
+    if op(v) == "bin" and v[1] == "+" and (_fresh_list(v[2]) or _fresh_list(v[3])):
+        return True
+    return False
 
 
 def returns_state(cx: Cx, m: FunctionInfo) -> str | None:
